@@ -77,6 +77,9 @@ fn main() {
         "C07" => {
             let mut sink = cases::CaseSink::new("C07", "Corr.C07", &opts.out, 150);
             props::c07::generate(&opts, &mut sink);
+            // whole jobs through every aggregation entry point of the API and every kind of sink
+            let mut r2 = rng::Rng::new(opts.seed ^ 0x77);
+            props::aggjobs::generate(&mut r2, &mut sink, if opts.thorough { 1400 } else { 210 });
             sink.finish(props::c07::RULE, serde_json::json!({}));
         }
         "C19" => {
@@ -85,7 +88,7 @@ fn main() {
             sink.finish(props::c19::RULE, serde_json::json!({}));
         }
         "C16" => {
-            let mut sink = cases::CaseSink::new("C16", "Corr.C16", &opts.out, 200);
+            let mut sink = cases::CaseSink::new("C16", "Corr.ZooCorr Corr.C16", &opts.out, 200);
             props::c16::generate(&opts, &mut sink);
             sink.finish(props::c16::RULE, serde_json::json!({}));
         }
@@ -99,7 +102,7 @@ fn main() {
             // watermark safety (C06); fewer cases per component than in their own checks
             let c05 = opts.prop == "C05";
             let module = if c05 { "Corr.C05" } else { "Corr.C06" };
-            let mut sink = cases::CaseSink::new(&opts.prop, &format!("Corr.BinCorr Model.BinaryStart Model.Joins Model.End Corr.LinkCorr Model.Route Corr.RouteCorr Corr.C08 Corr.C09 {module}"), &opts.out, 150);
+            let mut sink = cases::CaseSink::new(&opts.prop, &format!("Corr.BinCorr Model.BinaryStart Model.Joins Model.End Corr.LinkCorr Model.Route Corr.RouteCorr Corr.ZooCorr Corr.C08 Corr.C09 {module}"), &opts.out, 150);
             let sub = Opts { prop: opts.prop.clone(), thorough: opts.thorough, seed: opts.seed, out: opts.out.clone(), replay: None, scale: 3 };
             sink.wrap = Some(("KStart".into(), "C17".into()));
             props::c17::generate(&sub, &mut sink);
